@@ -5,13 +5,13 @@ V = os.path.dirname(os.path.dirname(os.path.abspath(__file__)))
 props = [json.loads(l) for l in open(os.path.join(V, 'properties.jsonl'))]
 
 T = {
- 'C01': ("generated-input search for panics, aborts, overflows and hangs: structured mutations of valid encodings, AVP-record lists, the complete type x payload-length grid and all inputs of <= 2 octets, each under all 8 option sets and as a bare AVP list, in both build profiles, in child processes so that aborts and hangs are observed; thorough adds coverage-guided libFuzzer campaigns (ASan, debug assertions)",
+ 'C01': ("generated-input search for panics, aborts, overflows and hangs: structured mutations of valid encodings, AVP-record lists, the complete type x payload-length grid and all inputs of <= 2 octets, each under all 8 option sets and as a bare AVP list, in both build profiles, in child processes so that aborts and hangs are observed; inputs of 32 KiB .. 135 KiB, every 16-bit code of six enumerated fields, a reader that declines bytes() requests and a 64 KiB-stack thread are part of the quick tier; thorough adds coverage-guided libFuzzer campaigns (ASan, debug assertions)",
          "sampling outside the enumerated sub-spaces; non-termination decided by a 20 s watchdog with re-confirmation",
          "property-based testing (proptest byte tapes + exhaustive grids) with a crash/abort/hang oracle; libFuzzer in thorough"),
  'C02': ("every decode is run through a harness-supplied monitoring Reader that checks each unchecked request against the octets remaining (in every build mode), and through two further conforming readers (SliceReader, an owned-Vec reader); zero contract violations and identical results are required; per-kind try_read on every payload length 0..40 is exhaustive; reveal's private reader is observed by debug-assertion builds in child processes",
          "'conforming reader' as stated in DESIGN.md section 3.4; reveal's leg relies on debug-assertion aborts/panics, not on the monitor",
          "property-based testing with contract-monitor readers + differential between three Reader implementations"),
- 'C03': ("round-trip of generated control messages (0..~70 AVPs, all 39 kinds + opaque hidden AVPs, boundary-biased values, messages up to exactly 65 535 octets) and single AVPs through encode then strict decode, compared with the crate's own PartialEq and field for field",
+ 'C03': ("round-trip of generated control messages (0..10 921 AVPs, all 39 kinds + opaque hidden AVPs, boundary-biased values and specially treated characters, messages up to exactly 65 535 octets, writers that already hold up to ~200 000 octets, unrelated and refused codec calls on the same thread just before) and single AVPs through encode then strict decode, compared with the crate's own PartialEq and field for field",
          "sampling of the value space; values are built through public fields/constructors only",
          "property-based testing, round-trip oracle"),
  'C04': ("round-trip of generated data messages over all 16 L/S/O/P flag combinations, payloads from 1 octet to the 65 535-octet total, exact or absent Length, offsets 0..|data|-1",
@@ -26,10 +26,10 @@ T = {
  'C07': ("an independent length walker over the emitted octets checks every length field against the extent it describes, for in-range values and for generated oversize values (AVPs of 1024..~5000 octets, message bodies crossing 65 535, hide() at the limits): either the call fails loudly or every length is exact",
          "'fails loudly' observed as a panic",
          "property-based testing with an independent length-walker oracle and oversize generators"),
- 'C08': ("metamorphic testing: accepted messages followed by arbitrary suffixes, back-to-back message streams, and concatenations of well-delimited AVP records (good and bad) must decode exactly as their parts",
+ 'C08': ("metamorphic testing: accepted messages followed by arbitrary suffixes (up to 64 KiB, and a 4 GiB lazily mapped buffer), back-to-back message streams (from the reference and from the crate's own encoder), and concatenations of well-delimited AVP records (good and bad) must decode exactly as their parts",
          "sampling",
          "property-based metamorphic testing (suffix independence, concatenation homomorphism)"),
- 'C09': ("metamorphic testing: sequences of values encoded into a writer that already holds a prefix must equal prefix ++ individual encodings; a monitoring Writer checks that every positional overwrite lies inside the value (and the AVP) being encoded",
+ 'C09': ("metamorphic testing: sequences of values encoded into a writer that already holds a prefix must equal prefix ++ individual encodings; a monitoring Writer (optionally with a virtual base of up to 2^62 octets, optionally re-entering the crate) checks that every positional overwrite lies inside the value being encoded",
          "sampling",
          "property-based metamorphic testing with a contract-monitor writer"),
  'C10': ("accepted inputs that are non-canonical by construction (reserved bits, M unset, surplus octets, trailing octets, P/O on control ...) and accepted mutated inputs are decoded, re-encoded, strictly re-decoded and re-encoded again: one step must reach the fixed point",
@@ -38,7 +38,7 @@ T = {
  'C11': ("hide then reveal (directly and through encode/decode of the hidden AVP) on generated AVPs of all 39 kinds, secrets incl. empty, paddings steered to block counts 1, 2, 3, >= 4 and exact multiples of 16; identity cases for hidden/non-hidden arguments",
          "sampling",
          "property-based testing, round-trip oracle"),
- 'C12': ("differential testing of hide (forward) and reveal (backward, on random and crafted ciphertexts) against an independent implementation of RFC 2661 section 4.3 with the harness's own MD5; plus determinism and independence from the unused padding tail",
+ 'C12': ("differential testing of hide (forward) and reveal (backward, on random and crafted ciphertexts) against an independent implementation of RFC 2661 section 4.3 with the harness's own MD5; secrets of 0..8192 octets, related-secret sequences, degenerate ciphertext blocks, four concurrent threads; plus determinism and independence from the unused padding tail",
          "the harness's MD5 and reference cipher are the trusted base (self-tested at start-up)",
          "property-based differential testing against an independent cipher implementation"),
  'C13': ("generated random and crafted hidden values (crafted = chosen plaintext incl. every interesting original-length value, encrypted with the reference key schedule) are revealed in child processes in both build profiles: no panic/abort, right attribute type, the three stated rejections",
@@ -47,7 +47,7 @@ T = {
  'C14': ("all 65 536 flag words x 3 bodies x 8 option sets (exhaustive) plus generated inputs: monotonicity over the option lattice, exactness of each check against the same options with that check off, independence from the bits owned by disabled checks, and try_read = version-only",
          "the flag-word sub-space is exhaustive; other inputs sampled",
          "exhaustive enumeration + property-based metamorphic testing over the option lattice"),
- 'C15': ("control messages assembled from generated good records and a chosen subset of individually undecodable records (7 fault kinds, each with an identifying value), optional unusable-length tail: acceptance iff no bad record and Message Type first; the error list must equal the stated errors in wire order",
+ 'C15': ("control messages assembled from generated good records and a chosen subset of individually undecodable records (7 fault kinds, each with an identifying value), optional unusable-length tail, bodies of up to ~700 records with up to 512 bad ones, every vendor id exhaustively: acceptance iff no bad record and Message Type first; the error list must equal the stated errors in wire order",
          "for bad proxy-authen type and unusable length no property states the variant (any single attributable error accepted)",
          "property-based fault-injection testing with a constructed expected error list"),
  'C16': ("complete enumeration of all 65 536 codes for each of six enumerated fields plus every named value, against the harness's own RFC 2661 number/name tables",
@@ -59,7 +59,7 @@ T = {
  'C18': ("model-based testing: generated operation sequences on SliceReader (pool of readers incl. sub-readers, boundary arguments) and VecWriter (appends and positional overwrites incl. out-of-range and wrapping offsets) against a reference cursor / Vec model",
          "state after a refused bytes() request is not asserted",
          "model-based (stateful) property testing against a reference cursor / vector"),
- 'C19': ("generated call histories (decode, AVP-list decode, encode, hide, reveal, error rendering) run with file descriptors 1 and 2 redirected to a memory file: no octet may be written; every call must return its canonical result in any order and on 8 concurrent threads",
+ 'C19': ("generated call histories (decode, AVP-list decode, encode, hide, reveal, error rendering) run with file descriptors 1 and 2 redirected to a memory file or a pseudo-terminal: no octet may be written; every call must return its canonical result in any order and on 8 concurrent threads",
          "thread schedules are the OS's; the crate has no synchronisation or shared state a controlled scheduler could intercept",
          "property-based testing over call histories with fd-level output capture and order/thread-independence oracle"),
  'C20': ("single-fault injection into generated valid messages (8 fault kinds with offending values) with the exact expected error, through the message decoder and the bare AVP-list decoder; complete enumeration of all 655 631 error values for rendering, AVP-kind names checked against the crate's actual dispatch",
